@@ -77,11 +77,11 @@ GENERIC_ITEMS = [  # compile-valid generic declarations per derive family (deriv
     ("Not", "#[derive(derive_more::Not, derive_more::Neg)] pub struct G<T, U = T>(pub T, pub U);"),
     ("Not", "#[derive(derive_more::Not)] pub enum G<T> { A(T), B { x: T }, U }"),
     # field types in which an EXPRESSION (a constant's path as the array length) follows the type parameter
-    ("AsRef", "#[derive(derive_more::AsRef, derive_more::AsMut)] pub struct G<T>(#[as_ref([T])] #[as_mut([T])] pub [T; crate::LEN]);"),
-    ("AsRef", "#[derive(derive_more::AsRef)] pub struct G<T> { #[as_ref([T], [T; crate::LEN])] pub a: [T; crate::LEN], pub b: u8 }"),
-    ("Debug", "#[derive(derive_more::Debug)] pub struct G<T>(pub [T; crate::LEN], pub [u8; crate::LEN]);"),
-    ("Display", "#[derive(derive_more::Display)] #[display(\"{}\", _0[0])] pub struct G<T>(pub [T; crate::LEN]) where T: core::fmt::Display;"),
-    ("Error", "#[derive(derive_more::Debug, derive_more::Display, derive_more::Error)] #[display(\"e\")] pub struct G<T>(#[error(source)] pub Box<T>, pub [u8; crate::LEN]);"),
+    ("AsRef", "#[derive(derive_more::AsRef, derive_more::AsMut)] pub struct G<T>(#[as_ref([T])] #[as_mut([T])] pub [T; LEN]);"),
+    ("AsRef", "#[derive(derive_more::AsRef)] pub struct G<T> { #[as_ref([T], [T; LEN])] pub a: [T; LEN], pub b: u8 }"),
+    ("Debug", "#[derive(derive_more::Debug)] pub struct G<T>(pub [T; LEN], pub [u8; LEN]);"),
+    ("Display", "#[derive(derive_more::Display)] #[display(\"{}\", _0[0])] pub struct G<T>(pub [T; LEN]) where T: core::fmt::Display;"),
+    ("Error", "#[derive(derive_more::Debug, derive_more::Display, derive_more::Error)] #[display(\"e\")] pub struct G<T>(#[error(source)] pub Box<T>, pub [u8; LEN]);"),
     # parameters DECLARED with the operator's trait (no `Output = ..`): the impl still needs `T: Op<Output = T>` next to it
     ("Add", "#[derive(derive_more::Add, derive_more::Sub)] pub struct G<T: core::ops::Add + core::ops::Sub>(pub T, pub T);"),
     ("Add", "#[derive(derive_more::BitAnd, derive_more::BitOr)] pub struct G<T> where T: core::ops::BitAnd, T: core::ops::BitOr { pub a: T }"),
@@ -398,7 +398,8 @@ def run(chk, tier, seed, replay):
     variants.append(("variant_deprecated:FromStr", "#[derive(derive_more::FromStr)] pub enum T { #[deprecated] A, B }"))
     variants.append(("variant_deprecated:TryFrom", "#[derive(derive_more::TryFrom)] #[try_from(repr)] pub enum T { #[deprecated] A, B }"))
     for i, (d, decl_text) in enumerate(GENERIC_ITEMS):
-        variants.append((f"generic:{d}:{i}", decl_text))
+        # (an array length written as a bare one-segment path: the constant is imported next to the item)
+        variants.append((f"generic:{d}:{i}", ("use crate::LEN;\n" if "; LEN]" in decl_text else "") + decl_text))
     variants.append(("raw:Display", "#[derive(derive_more::Display, derive_more::Debug)] pub enum r#enum { r#fn, r#in(u8), r#type { r#struct: u8 } }"))
     variants.append(("raw:IsVariant", "#[derive(derive_more::IsVariant, derive_more::Unwrap, derive_more::TryUnwrap, derive_more::From)] pub enum r#enum { r#fn(u8), r#in(i8) }"))
     variants.append(("raw:FromStr", "#[derive(derive_more::FromStr)] pub enum r#enum { r#fn, r#in }"))
